@@ -13,9 +13,24 @@ Definition calls (sk : fn_skel) (f : string) : bool := str_in f (body_calls (sk_
 Definition assigns_param_field (sk : fn_skel) (field : string) : bool :=
   existsb (fun s => match s with SAssign (XMember (XParam 0) fld) _ => String.eqb fld field | _ => false end) (sk_body sk).
 
-(** [IDS->field = <own parameter 0>] where IDS was obtained from the accessor *)
+(** [<storage>->field = <own parameter 0>] where <storage> is the accessor's result: either the call itself or a non-static local whose
+    only value (initialiser or assignments) is that call -- the local's name is free *)
+Definition is_get (e : sexpr) : bool :=
+  match e with XCall f [] => String.eqb f "snoopy_inputdatastorage_get" | _ => false end.
+Definition var_from_get (body : list sstmt) (v : string) : bool :=
+  existsb (fun s => match s with
+                    | SAssign (XVar w) e => String.eqb w v && is_get e
+                    | SDecl w false (Some e) => String.eqb w v && is_get e
+                    | _ => false end) body
+  && forallb (fun s => match s with
+                       | SAssign (XVar w) e => negb (String.eqb w v) || is_get e
+                       | SDecl w st (Some e) => negb (String.eqb w v) || (negb st && is_get e)
+                       | _ => true end) body.
 Definition stores_param_into (sk : fn_skel) (field : string) : bool :=
-  existsb (fun s => match s with SAssign (XMember (XVar _) fld) (XParam 0) => String.eqb fld field | _ => false end) (sk_body sk)
+  existsb (fun s => match s with
+                    | SAssign (XMember base fld) (XParam 0) =>
+                      String.eqb fld field && (is_get base || match base with XVar v => var_from_get (sk_body sk) v | _ => false end)
+                    | _ => false end) (sk_body sk)
   && negb (existsb s_has_other (sk_body sk)).
 
 Definition defaults_all (sk_defaults : fn_skel) : bool :=
